@@ -86,11 +86,18 @@ def run(res, f, tier):
         if conds.get("next(%s, #0)" % SRC) == "fails":
             seen["empty"] = ret
             continue
+        # the test "is this key `name`?" in whatever spelling (`match &key[..] { "name" => ..}`, `key == NAME_META`):
+        # the one condition that compares the item's key with the constant 'name'
         isname = conds.get(ISNAME)
+        if isname is None:
+            cand = [v_ for k_, v_ in conds.items() if K in k_ and "'name'" in k_ and "::eq" in k_]
+            isname = cand[0] if len(cand) == 1 else None
         fl = conds.get(FL)
         tag = conds.get("rule::flatten!(%s)" % V, "")
-        key = ("name" if isname == "val not:0" else "other", "err" if fl == "fails" else ("ok:" + tag[3:] if tag else "ok"))
-        seen.setdefault(key, set()).add(ret)
+        outcome = "err" if fl == "fails" else ("ok:" + tag[3:] if tag else "ok")
+        # a path that decides without asking whether the key is `name` holds for both kinds of key
+        for kname in (("name", "other") if isname is None else (("name",) if isname == "val not:0" else ("other",))):
+            seen.setdefault((kname, outcome), set()).add(ret)
     ob(seen.get("empty") == "Ok(RuleBuilder(Option::None, expr, BTreeMap::new()))", "C14|meta|none", "without metadata the rule builder must start with no name and no metadata: %s" % seen.get("empty"))
     ob(seen.get(("name", "ok:String")) == {"Ok(RuleBuilder(Some(rule::flatten!(%s).String.0), expr, BTreeMap::new()))" % V}, "C14|meta|name-string",
        "@name with a string constant must become the rule name: %s" % seen.get(("name", "ok:String")))
